@@ -10,13 +10,13 @@ missed = [l.split("|")[1].strip() for l in table.splitlines() if "**missed**" in
 why = {
  "C04-4": "snap tolerance 1e-9 → 1e-12 in `lineIntersect`: the value of an absolute tolerance; no structural reading (W8 decides only that parameters one ulp apart are merged, W15 that the edge tests and the snapping use the *same* tolerance, which they still do).",
  "C14-8": "`ImportTriMesh` builds its R-tree by incremental `Insert` instead of bulk loading; the third-party tree dereferences nil for a NaN/Inf bounding box. The panic is inside `rtreego`, which the checks trust and do not analyse.",
- "C20-8": "`Circumcenter` selects the bisector of the *flatter* edge for y_c (the flipped conditioning choice): algebraically the same centre (Y4 holds), wrong only through cancellation for nearly horizontal edges; numeric.",
+ "C05-21": "`layerYZ.Evaluate` evaluates the last short batch of a layer inline and stores the values at the start of the layer instead of at the advanced window: V5 decides the protocol of the batches that are *sent* (add before send, window shift, fresh buffer, wait) and has no reading of a tail that is no longer sent.",
  "C05-14": "`mcToTriangles` looks up the complement of configurations above 127 and swaps the winding: the kernel reader no longer recognises the emitted primitive and the checks of C05 and C06 stop with exit 2 (an alarm, but an undecided one: only a reported violation counts as a detection here).",
  "C20-11": "`InCircumcircle` compares with the package tolerance 1e-9 instead of its own epsilon 1e-12: the value of an absolute tolerance.",
 }
 out = []
 out.append("## 5. Seeded changes: what catches what\n")
-out.append(f"""{tot} property-breaking changes produced independently by sub-agents (nine
+out.append(f"""{tot} property-breaking changes produced independently by sub-agents (ten
 rounds of 20 agents × 2, plus one extra; two candidates of the early rounds were
 dropped: one duplicated an earlier change, one stopped being a violation after
 the repair ec217a2), each given only the property text and its own scratch
@@ -28,7 +28,7 @@ re-run. Detection after strengthening: **{det} of {tot}** (recomputed by
 `tools/refresh_seeded.py` on the current tree with the current checker, table
 below from `tools/seeded_table.py`). The first-pass rate — what the checks
 caught before any rule was added for the round — was 38 of 40 in the seventh
-round, 31 of 40 in the eighth and 26 of 40 in the ninth: the agents are told
+round, 31 of 40 in the eighth, 26 of 40 in the ninth and 30 of 40 in the tenth: the agents are told
 what was already collected and move to code the rules do not read yet.
 
 Rules written *in response to* a miss: S7, Y4/Y5, M7, screw spec, Z7, BB-6,
@@ -44,7 +44,9 @@ farthest-corner fold, sign-assignment enumeration of cell skips, atomic stores
 as writes, H8, S12 (round 7); W16, T10/U10, O5, Z16, H9, K16, K17, Y9, the
 `Canonical` shortcut rule (round 8); M13, W17, W18, the in-loop `Degenerate`
 branches, the I/O-error notion of B7/X5, B8, G8, S13, the single-subtraction
-rule of X3, Z17, K18, K19, Y10, Y11 (round 9). The agents' side notes on the unchanged
+rule of X3, Z17, K18, K19, Y10, Y11 (round 9); G9, X6, H10, Y13, Y14, K20,
+BB-14, W20, receives from shared channels in F1, and Y12 for the older C20-8
+(round 10). The agents' side notes on the unchanged
 tree led to most of the repaired defects (section 3).
 """)
 out.append("**Misses (documented, not papered over):**")
